@@ -4,6 +4,7 @@ Tree (JSON lists)
     ["in", name]                 input port (value from env)
     ["lit", n]                   Python int literal
     ["ek", n_members, i]         enum constant (member i of the design's enum with n members)
+    ["kv", kind, width, value]   compile-time constant BitVector / Unsigned / Signed object (value as in cv.ref.values.V)
     ["kb", 0|1]  ["kbit", 0|1]   compile-time constants False/True and Bit(0)/Bit(1) (operands of and / or / any / all)
     [binop, x, y]                binop in cv.ref.values.BINARY  (add sub mul truncdiv floordiv mod rem shl shr concat
                                  and or xor eq ne lt le gt ge)
@@ -104,6 +105,8 @@ class Ev:
             return rv.integer(t[1]), False
         if tag == "ek":
             return V("enum", t[1], t[2]), False
+        if tag == "kv":
+            return rv.make(t[1], t[2], t[3]), False
         if tag == "kb":
             return rv.boolean(t[1]), False
         if tag == "kbit":
@@ -327,6 +330,8 @@ def selfcheck():
     assert ev(["all", ["in", "d"], ["lit", 3], ["kbit", 1], ["in", "a"]]) == rv.boolean(True)
     assert ev(["lor", ["lnot", ["in", "d"]], ["lit", 0], ["kbit", 0]]) == rv.boolean(False)
     assert ev(["any", ["lnot", ["in", "d"]], ["kb", 0], ["lit", -1]]) == rv.boolean(True)
+    assert ev(["add", ["kv", "s", 3, -3], ["kv", "s", 5, 9]]) == V("s", 5, 6)
+    assert ev(["sub", ["kv", "s", 2, -2], ["kv", "s", 4, 7]]) == V("s", 4, 7)
     assert ev(["mul", ["truncdiv", ["in", "a"], ["lit", 0]], ["in", "a"]]) == V("u", 6, None)
     assert ev(["eq", ["lt", ["in", "a"], ["lit", 6]], ["lnot", ["in", "d"]]]) == rv.boolean(False)
     assert static_type(["mul", ["in", "a"], ["in", "a"]], {"a": ("u", 3)}) == ("u", 6)
